@@ -98,6 +98,8 @@ pub struct DocCfg {
     pub title_p: f64,
     /// first word number (unique tokens across a library)
     pub number_from: u32,
+    /// weight of block references among the leaf blocks
+    pub block_ref_weight: u32,
 }
 
 impl DocCfg {
@@ -111,6 +113,7 @@ impl DocCfg {
             inline_pool: None,
             title_p: 0.0,
             number_from: 0,
+            block_ref_weight: 3,
         }
     }
     fn on(&self, f: &str) -> bool {
@@ -406,7 +409,7 @@ fn leaf_block(cfg: &DocCfg, ctx: &str) -> BoxedStrategy<Blk> {
         opts.push((1, words(1, 3).prop_map(Blk::Html).boxed()));
     }
     if on("block_ref") && cfg.on("link") {
-        opts.push((3, link(cfg).prop_map(Blk::Ref).boxed()));
+        opts.push((cfg.block_ref_weight, link(cfg).prop_map(Blk::Ref).boxed()));
     }
     proptest::strategy::Union::new_weighted(opts).boxed()
 }
